@@ -122,6 +122,23 @@ pub fn run<S: Scheme>(scn: &Scenario, log: &EventLog) -> RunResult {
             _ => { res.stats.probe("vacuous:honest-prover-failed"); proofs_a.push(None); blind_a.push(None); continue }
         };
         proofs_a.push(Some(claim.proof_bytes()));
+        // RNG accounting of the prover step: IPA blinds an opening of hiding polynomials with a fresh
+        // polynomial of full degree plus one scalar; Hyrax draws dim + 3 scalars per polynomial
+        if let Op::Open { polys, .. } = op {
+            use ark_poly_commit::PCCommitterKey;
+            let drawn = sess.last_open_rng_bytes;
+            let need = match fam {
+                Family::Ipa if polys.iter().any(|&p| scn.polys[p].hiding.is_some()) => (sess.prover.ck.supported_degree() as u64 + 2) * fe_bytes::<S::F>(),
+                Family::Hyrax => polys.len() as u64 * ((1u64 << (scn.cfg.num_vars.unwrap_or(0) / 2)) + 3) * fe_bytes::<S::F>(),
+                _ => 0,
+            };
+            if need > 0 {
+                res.stats.fire("rng-counted-open");
+                if drawn < need {
+                    bad(&mut res, "rng-accounting", "open", format!("open drew {drawn} bytes from the caller's RNG; blinding this opening needs at least {need}"));
+                }
+            }
+        }
         let (d, _) = sess.verify(&claim, i as u64);
         if !d.accepted() { res.stats.probe("vacuous:honest-not-accepted"); }
         match (&claim, op) {
